@@ -16,6 +16,11 @@
 #include "ccl/semantic/RSModel.h"
 #include "ccl/api/RSFormJA.h"
 #include "ccl/tools/JSON.h"
+#if PART == 5
+#include "FakeSourceManager.hpp"
+#include "ccl/oss/OSSchema.h"
+#include "ccl/ops/RSOperations.h"
+#endif
 #include <string>
 #include <vector>
 #ifndef PART
@@ -165,6 +170,55 @@ extern "C" void harness_main() {
   try {
     if (model) { RSModel m; from_json(doc, m); sym_reach("loaded"); useModel(m); }
     else { RSForm s; from_json(doc, s); sym_reach("loaded"); useSchema(s); }
+  } catch (const nlohmann::json::exception&) { sym_reach("json-error"); }
+#elif PART == 5
+  // operation-schema document: two bases, an operation with an equation table and stored translations, one further operation
+  Environment::Instance().SetSourceManager(std::make_unique<FakeSourceManager>());
+  JSON doc;
+#ifdef OSS_NUMBERS
+  const bool numbers = true;
+#else
+  const bool numbers = false;
+#endif
+  {
+    oss::OSSchema o;
+    o.title = "t"; o.comment = "c";
+    const auto b1 = o.InsertBase()->uid, b2 = o.InsertBase()->uid;
+    const auto o3 = o.InsertOperation(b1, b2)->uid;
+    (void)o.InsertOperation(b1, o3);
+    o.SetPictAlias(b1, "a"); o.SetPictLink(b2, oss::MediaLink{"addr", "sub"});
+    auto opts = std::make_unique<ops::EquationOptions>(11u, 12u, ops::Equation{ops::Equation::Mode::keepDel, "term"});
+    (void)o.Ops().InitFor(o3, ops::Type::rsSynt, std::move(opts));
+    doc = o;
+    // stored translations as the library writes them
+    doc["items"][2]["attachedOperation"]["translations"] = JSON::array({JSON::array({JSON::array({1, 2})}), JSON::array({JSON::array({3, 4}), JSON::array({5, 6})})});
+  }
+  JSON tree;
+  if (numbers) {        // every integer / boolean leaf (pictogram ids, grid cells, flags, identifiers in equations and translations) symbolic, one at a time
+    std::vector<Ptr> ints; collectInts(doc, Ptr{}, ints);
+    const int at = pick((int)ints.size(), "integer-leaf");
+    sym_note(ints[(size_t)at].to_string().c_str());
+    doc[ints[(size_t)at]] = (int64_t)sym_i64("value");
+    tree = doc;
+  } else {
+    for (int k = 0; k < MUT; ++k) {
+      std::vector<Ptr> nodes; collect(doc, Ptr{}, nodes);
+      const int at = pick((int)nodes.size(), k == 0 ? "node" : "node2");
+      const int kind = k == 0 ? pick(N_KINDS, "kind") : pick(KINDS2, "kind2");
+      mutate(doc, nodes[(size_t)at], kind);
+    }
+    const std::string text = doc.dump();
+    sym_note(text.c_str());
+    try { tree = JSON::parse(text); } catch (const nlohmann::json::exception&) { sym_reach("json-error"); return; }
+  }
+  try {
+    oss::OSSchema loaded;
+    from_json(tree, loaded);
+    sym_reach("loaded");
+    for (const auto& pict : loaded) { (void)loaded.Graph().ParentsOf(pict.uid); (void)loaded.Graph().ChildrenOf(pict.uid); (void)loaded.Grid()(pict.uid); (void)loaded.Src()(pict.uid); (void)loaded.Ops()(pict.uid); }
+    (void)loaded.Graph().ExecuteOrder();
+    JSON again(loaded);
+    (void)again.dump();
   } catch (const nlohmann::json::exception&) { sym_reach("json-error"); }
 #else
   const int n = pick(DOCLEN + 1, "length");
